@@ -29,6 +29,7 @@ ASSUMPTIONS = [
     "mixing in (0,1] and centred data, as the property states",
     "tolerance 1e-6 relative",
 ]
+RULE = RULE + " " + pc._routes_rule() + " One case in 40 adds a table of more than 4096 rows (the data stacked r times against the data times sqrt r)."
 
 
 def gen(rng, tier, index):
